@@ -200,6 +200,10 @@ func (p *Prog) synthesizeAutos() {
 				if !strings.HasPrefix(fn.Name(), "Deserialize") {
 					continue
 				}
+			} else if a.Kind == "loopvars" {
+				if !strings.HasPrefix(strings.ToLower(fn.Name()), "deserialize") {
+					continue
+				}
 			} else if !callsAppend(fn, 0) {
 				// Append calls may sit in function literals that the function calls directly
 				found := false
